@@ -57,9 +57,18 @@ theorem assignC_wt : (v : TL) → (g : GoTy) → (t : Ty) → (nul : Bool) → (
   | .absent, g, t, nul, gv, _, _, _, ha => by simp [assignC] at ha
   | .null, g, t, nul, gv, _, _, _, ha => by
     cases nul <;> simp [assignC] at ha
-    cases g <;> simp at ha
-    subst ha
-    simp [wt]
+    by_cases hp : ∃ g1, g = .ptr g1
+    · obtain ⟨g1, rfl⟩ := hp
+      simp at ha
+      subst ha
+      simp [wt]
+    · have ha' : (if isBare g = true then some GoVal.nilBare else none) = some gv := by
+        cases g <;> first | exact ha | exact absurd ⟨_, rfl⟩ hp
+      by_cases hb : isBare g = true
+      · simp only [hb, if_true, Option.some.injEq] at ha'
+        subst ha'
+        simp [wt, hb]
+      · simp [hb] at ha'
   | .bool b, g, t, nul, gv, _, _, _, ha => by
     unfold assignC at ha
     cases hu : unptr nul g with
@@ -67,9 +76,8 @@ theorem assignC_wt : (v : TL) → (g : GoTy) → (t : Ty) → (nul : Bool) → (
     | some g0 =>
       simp only [hu, Option.map_eq_some_iff] at ha
       obtain ⟨a0, ha, rfl⟩ := ha
-      rw [wt_wrapFor _ _ hu]
       cases t <;> cases g0 <;> simp at ha
-      all_goals (subst ha; simp [wt, conforms, TL.ofDM])
+      all_goals (subst ha; rw [wt_wrapFor _ _ hu (by simp) (by simp)]; simp [wt, conforms, TL.ofDM])
   | .float b, g, t, nul, gv, _, _, _, ha => by
     unfold assignC at ha
     cases hu : unptr nul g with
@@ -77,9 +85,8 @@ theorem assignC_wt : (v : TL) → (g : GoTy) → (t : Ty) → (nul : Bool) → (
     | some g0 =>
       simp only [hu, Option.map_eq_some_iff] at ha
       obtain ⟨a0, ha, rfl⟩ := ha
-      rw [wt_wrapFor _ _ hu]
       cases t <;> cases g0 <;> simp at ha
-      all_goals (subst ha; simp [wt, conforms, TL.ofDM])
+      all_goals (subst ha; rw [wt_wrapFor _ _ hu (by simp) (by simp)]; simp [wt, conforms, TL.ofDM])
   | .bytes b, g, t, nul, gv, _, _, _, ha => by
     unfold assignC at ha
     cases hu : unptr nul g with
@@ -87,9 +94,8 @@ theorem assignC_wt : (v : TL) → (g : GoTy) → (t : Ty) → (nul : Bool) → (
     | some g0 =>
       simp only [hu, Option.map_eq_some_iff] at ha
       obtain ⟨a0, ha, rfl⟩ := ha
-      rw [wt_wrapFor _ _ hu]
       cases t <;> cases g0 <;> simp at ha
-      all_goals (subst ha; simp [wt, conforms, TL.ofDM])
+      all_goals (subst ha; rw [wt_wrapFor _ _ hu (by simp) (by simp)]; simp [wt, conforms, TL.ofDM])
   | .link b, g, t, nul, gv, _, _, _, ha => by
     unfold assignC at ha
     cases hu : unptr nul g with
@@ -97,9 +103,8 @@ theorem assignC_wt : (v : TL) → (g : GoTy) → (t : Ty) → (nul : Bool) → (
     | some g0 =>
       simp only [hu, Option.map_eq_some_iff] at ha
       obtain ⟨a0, ha, rfl⟩ := ha
-      rw [wt_wrapFor _ _ hu]
       cases t <;> cases g0 <;> simp at ha
-      all_goals (subst ha; simp [wt, conforms, TL.ofDM])
+      all_goals (subst ha; rw [wt_wrapFor _ _ hu (by simp) (by simp)]; simp [wt, conforms, TL.ofDM])
   | .int i, g, t, nul, gv, _, _, _, ha => by
     unfold assignC at ha
     cases hu : unptr nul g with
@@ -107,11 +112,11 @@ theorem assignC_wt : (v : TL) → (g : GoTy) → (t : Ty) → (nul : Bool) → (
     | some g0 =>
       simp only [hu, Option.map_eq_some_iff] at ha
       obtain ⟨a0, ha, rfl⟩ := ha
-      rw [wt_wrapFor _ _ hu]
       cases t <;> cases g0 <;> simp at ha
       · obtain ⟨hf, rfl⟩ := ha
+        rw [wt_wrapFor _ _ hu (by simp) (by simp)]
         simp [wt, hf]
-      · subst ha; simp [wt, conforms, TL.ofDM]
+      · subst ha; rw [wt_wrapFor _ _ hu (by simp) (by simp)]; simp [wt, conforms, TL.ofDM]
   | .str b, g, t, nul, gv, hwf, _, hcf, ha => by
     unfold assignC at ha
     cases hu : unptr nul g with
@@ -119,10 +124,9 @@ theorem assignC_wt : (v : TL) → (g : GoTy) → (t : Ty) → (nul : Bool) → (
     | some g0 =>
       simp only [hu, Option.map_eq_some_iff] at ha
       obtain ⟨a0, ha, rfl⟩ := ha
-      rw [wt_wrapFor _ _ hu]
       cases t with
-      | str => cases g0 <;> simp at ha; subst ha; simp [wt]
-      | any => cases g0 <;> simp at ha; subst ha; simp [wt, conforms, TL.ofDM]
+      | str => cases g0 <;> simp at ha; subst ha; rw [wt_wrapFor _ _ hu (by simp) (by simp)]; simp [wt]
+      | any => cases g0 <;> simp at ha; subst ha; rw [wt_wrapFor _ _ hu (by simp) (by simp)]; simp [wt, conforms, TL.ofDM]
       | enum ms r =>
         cases g0 <;> simp at ha
         · rename_i k
@@ -132,11 +136,13 @@ theorem assignC_wt : (v : TL) → (g : GoTy) → (t : Ty) → (nul : Bool) → (
           | some m =>
             simp only [hm, Option.map_eq_some_iff] at ha
             obtain ⟨i, hi, rfl⟩ := ha
+            rw [wt_wrapFor _ _ hu (by simp) (by simp)]
             obtain ⟨hmem, _⟩ := find?_mem_key (·.name) ms b m hm
             obtain ⟨rfl, hfit⟩ := (enumStore_eq_some k m.rint i).1 hi
             simp only [wt, Bool.not_false, Bool.true_and, hfit, List.any_eq_true]
             exact ⟨m, hmem, by simp⟩
         · obtain ⟨hany, rfl⟩ := ha
+          rw [wt_wrapFor _ _ hu (by simp) (by simp)]
           simp only [wt, Bool.not_false, Bool.true_and, List.any_eq_true]
           obtain ⟨m, hm, hn⟩ := hany
           exact ⟨m, hm, by simpa using hn⟩
@@ -148,21 +154,22 @@ theorem assignC_wt : (v : TL) → (g : GoTy) → (t : Ty) → (nul : Bool) → (
     | some g0 =>
       simp only [hu, Option.map_eq_some_iff] at ha
       obtain ⟨a0, ha, rfl⟩ := ha
-      rw [wt_wrapFor _ _ hu]
       replace hc := compatible_of_unptr t hu hc
       cases t with
       | list et enul =>
         cases g0 <;> simp at ha
         rename_i ge
         obtain ⟨ys, hys, rfl⟩ := ha
+        rw [wt_wrapFor _ _ hu (by simp) (by simp)]
         have hcf' : conformsList et enul xs = true := by
           cases nul <;> (unfold conforms at hcf; exact hcf)
         have h := assignList_wt xs ge et enul ys (by simpa [Ty.wf] using hwf) (by simpa [compatible] using hc)
           hcf' hys
-        cases ys <;> simp [sliceOf, wt, h]
+        simp [wt, h]
       | any =>
         cases g0 <;> simp at ha
         obtain ⟨d, hd, rfl⟩ := ha
+        rw [wt_wrapFor _ _ hu (by simp) (by simp)]
         have hv := ofDM_of_toDM _ _ hd
         have : conforms .any false (.list xs) = true := by cases nul <;> (unfold conforms at hcf ⊢; exact hcf)
         simp [wt, hv, this]
@@ -174,13 +181,13 @@ theorem assignC_wt : (v : TL) → (g : GoTy) → (t : Ty) → (nul : Bool) → (
     | some g0 =>
       simp only [hu, Option.map_eq_some_iff] at ha
       obtain ⟨a0, ha, rfl⟩ := ha
-      rw [wt_wrapFor _ _ hu]
       replace hc := compatible_of_unptr t hu hc
       cases t with
       | map vt vnul =>
         cases g0 <;> simp at ha
         rename_i gv0
         obtain ⟨kvs, hkvs, rfl⟩ := ha
+        rw [wt_wrapFor _ _ hu (by simp) (by simp)]
         have hcf' : conformsMap vt vnul [] es = true := by
           cases nul <;> (unfold conforms at hcf; exact hcf)
         have h := assignKVs_wt es gv0 vt vnul kvs (by simpa [Ty.wf] using hwf) (by simpa [compatible] using hc)
@@ -194,6 +201,7 @@ theorem assignC_wt : (v : TL) → (g : GoTy) → (t : Ty) → (nul : Bool) → (
         cases g0 <;> simp at ha
         rename_i gfs
         obtain ⟨vs, hvs, rfl⟩ := ha
+        rw [wt_wrapFor _ _ hu (by simp) (by simp)]
         have hw3 := wf_struct hwf
         have hcf' : conformsStruct fs.toList [] es = true := by
           cases nul <;> (unfold conforms at hcf; exact hcf)
@@ -217,6 +225,7 @@ theorem assignC_wt : (v : TL) → (g : GoTy) → (t : Ty) → (nul : Bool) → (
             obtain ⟨g1, hg1, hcg1⟩ := compatMembers_get gfs ms.toList hc' i m hmi
             simp only [hfi, hg1, Option.map_eq_some_iff] at ha
             obtain ⟨a, hasg, rfl⟩ := ha
+            rw [wt_wrapFor _ _ hu (by simp) (by simp)]
             have hcv : conforms m.ty false v = true := by
               cases nul <;> (unfold conforms at hcf; simp only [hfind] at hcf; exact hcf)
             have hmem := List.mem_of_getElem? hmi
@@ -227,6 +236,7 @@ theorem assignC_wt : (v : TL) → (g : GoTy) → (t : Ty) → (nul : Bool) → (
       | any =>
         cases g0 <;> simp at ha
         obtain ⟨d, hd, rfl⟩ := ha
+        rw [wt_wrapFor _ _ hu (by simp) (by simp)]
         have hv := ofDM_of_toDM _ _ hd
         have : conforms .any false (.map es) = true := by cases nul <;> (unfold conforms at hcf ⊢; exact hcf)
         simp [wt, hv, this]
@@ -295,7 +305,7 @@ theorem assignFields_wt : (es : TLKVs) → (gfs : GoFields) → (fs F : List Fie
               cases v <;> first | exact absurd rfl hva | exact hok
             exact assignC_wt v g f'.ty f'.nullable a (hwfF f' hfF) hcF hcv h1
           | optPtr g1 =>
-            simp only [hs] at h1 hcF ⊢
+            simp only [hs, Bool.and_eq_true] at h1 hcF ⊢
             by_cases hva : v = .absent
             · subst hva
               simp only [if_true, Option.some.injEq] at h1
@@ -304,35 +314,22 @@ theorem assignFields_wt : (es : TLKVs) → (gfs : GoFields) → (fs F : List Fie
               obtain ⟨a1, h1, rfl⟩ := h1
               have hcv : conforms f'.ty f'.nullable v = true := by
                 cases v <;> first | exact absurd rfl hva | exact hok
-              exact assignC_wt v g1 f'.ty f'.nullable a1 (hwfF f' hfF) hcF hcv h1
+              exact assignC_wt v g1 f'.ty f'.nullable a1 (hwfF f' hfF) hcF.2 hcv h1
           | optBare =>
             obtain ⟨ho, hn, hb⟩ := fslot_optBare hs
             simp only [hs] at h1 hcF ⊢
             by_cases hva : v = .absent
             · subst hva
-              simp only [if_true] at h1
-              simp [h1]
+              simp only [if_true, Option.some.injEq] at h1
+              subst h1
+              simp
             · simp only [hva, if_false] at h1
               have hcv : conforms f'.ty false v = true := by
                 have : conforms f'.ty f'.nullable v = true := by
                   cases v <;> first | exact absurd rfl hva | exact hok
                 rwa [hn] at this
-              simp [assignC_wt v g f'.ty false a (hwfF f' hfF) hcF hcv h1]
-          | nulBare =>
-            obtain ⟨ho, hn, hb⟩ := fslot_nulBare hs
-            simp only [hs] at h1 hcF ⊢
-            have hva : v ≠ .absent := by
-              intro h; subst h; simp [fieldValOK, ho] at hok
-            have hcv' : conforms f'.ty true v = true := by
-              have : conforms f'.ty f'.nullable v = true := by
-                cases v <;> first | exact absurd rfl hva | exact hok
-              rwa [hn] at this
-            by_cases hvn : v = .null
-            · subst hvn
-              simp only [if_true] at h1
-              simp [h1]
-            · simp only [hvn, if_false] at h1
-              simp [assignC_wt v g f'.ty false a (hwfF f' hfF) hcF (conforms_false_of _ _ _ hvn hcv') h1]
+              have hns := (assignC_bare_ne hb hcF h1).2
+              simp [hns, assignC_wt v g f'.ty false a (hwfF f' hfF) hcF hcv h1]
           | bad => simp [hs] at h1
         · have : (k != f.name) = true := by simpa using hk
           simp [this] at ha
